@@ -25,7 +25,7 @@ EX_NAMES = ['hasPeer', 'noPeer']
 FIELD_NAMES = ['hosts', 'nets', 'apps', 'data', 'users', 'creds', 'zones',
                'peers', 'owner', 'up', 'down', 'left', 'right', 'inner',
                'outer', 'src', 'dst']
-ASSOC_NAMES = ['Conn', 'Exec', 'Owns', 'Holds', 'Link']
+ASSOC_NAMES = ['Conn', 'Exec', 'Owns', 'Holds', 'Link', 'runsOn', 'uses']
 VAR_NAMES = ['allPeers', 'reach', 'scope']
 TAGS = ['hidden', 'suppress', 'debug', 'Override']
 DISTS = [('Exponential', [0.1]), ('Bernoulli', [0.5]), ('Gamma', [1.5, 2.0]),
@@ -624,7 +624,7 @@ def gen_spec(rng, cfg: dict | None = None) -> dict:
             planted = st.pop('_plant', None)
             st['meta'] = meta(0.25)
             if meta_on and rng.random() < 0.15:
-                st['meta']['mitre'] = rng.choice(['T1078', 'T1003.001', 'M1049: Antivirus'])
+                st['meta']['mitre'] = rng.choice(['T1078', 'T1003.001', 'M1049: Antivirus', ''])
             st['tags'] = sorted(_pick_names(rng, TAGS, rng.choice([0, 0, 0, 1, 1, 2])))
             if typ in ('or', 'and') and rng.random() < 0.2:
                 st['risk'] = {'isConfidentiality': rng.random() < 0.5,
